@@ -572,7 +572,7 @@ func c16Converters(c *Ctx) {
 				okC, why := false, "the appended argument is "+lx.str(call.Args[1])+", not a value converted to the declared parameter type: a parameter of a named type (type Level int) would make reflect.Value.Call panic"
 				if ok {
 					if sel, ok := unparen(conv.Fun).(*ast.SelectorExpr); ok && sel.Sel.Name == "Convert" && len(conv.Args) == 1 {
-						src := lx.str(sel.X)   // <converter>(args[i])#0
+						src := lx.str(sel.X)        // <converter>(args[i])#0
 						typ := lx.str(conv.Args[0]) // functionType.In(i) or In(numIn-1).Elem()
 						// the index used for the argument
 						idx := ""
